@@ -1027,7 +1027,7 @@ Proof.
         assert (X: forall l : list (aioid * pmsg), map snd (filter (fun x => (fst x =? a)%N) l) = [] ->
                      map snd (filter (fun x => negb (fst x =? a)%N) l) = map snd l).
         { induction l as [|[a0 v] l IHl]; cbn; [reflexivity|]. destruct (a0 =? a)%N; cbn; [discriminate|]. intros E0. now rewrite IHl. }
-        apply X. exact E.
+        symmetry. apply X. exact E.
       * apply sublist_map. apply sublist_app; [apply sublist_refl|]. apply sublist_map. apply sublist_filter.
       * intros x. pose proof (cnt_partition_wire x a waq) as P. rewrite !map_app, !cnt_app. lia.
     + apply sub_same; auto. cbn [sub_loss]. simp_r. unfold lookup_aq. clear - EA. unfold has_aio in EA.
@@ -1069,10 +1069,10 @@ Proof.
       rewrite !txs_app, txs_map_Free. fold (completes (map fst (firstn room waq))). rewrite txs_completes. cbn [txs app]. rewrite !app_nil_r.
       assert (RW: map snd (firstn room waq) ++ map snd (skipn room waq) = map snd waq) by (rewrite <- map_app; now rewrite firstn_skipn).
       split; [|split; [|split]].
-      * intros Hne. unfold lmq_full. apply Nat.leb_le. rewrite app_length, map_length, firstn_length.
+      * intros Hne. unfold lmq_full. apply Nat.leb_le. rewrite app_length, map_length, !firstn_length.
         assert (room < length waq).
         { destruct (Nat.lt_ge_cases room (length waq)); auto. exfalso. apply Hne. now apply skipn_all2. }
-        unfold room. rewrite firstn_length. lia.
+        unfold room in *. rewrite firstn_length in *. lia.
       * intros E. rewrite <- app_assoc, RW. rewrite <- (firstn_skipn n wmq) at 1. now rewrite E, app_nil_r.
       * rewrite <- app_assoc, RW. apply sublist_map. apply sublist_app; [apply sublist_firstn|apply sublist_refl].
       * intros x. rewrite <- (firstn_skipn n wmq) at 1. rewrite <- RW. rewrite !map_app, !cnt_app. lia.
